@@ -3,6 +3,7 @@ Proof: Properties/C06.v over the REGENERATED Wire.put/prepare (Gen/WireOps.v) an
 Tie:   (a) Gen/WireOps.v is regenerated from py4hw/base.py; (b) fail-closed AST scan: nobody writes .value/.next of
        another object; (c) the kernel model is run against the real simulator on random designs inside Coq.
 Search/oracle: drive real designs with extreme / negative / oversized stimulus and read every reachable wire."""
+import random
 import ast, glob, os
 import common, netlist, designs
 from common import REPO, quiet
@@ -253,6 +254,48 @@ def stimulus_sweep(ctx, rounds=1):
     return True
 
 
+def selector_histories(ctx):
+    """blocks that COPY one of several operands (Mux2, Mux, Select/OneHotMux, Buf chains behind them) with operands narrower than, as wide
+    as and wider than the result: the operand selected at the FIRST evaluation differs in kind from the one selected later, every operand
+    carries all-ones, and every wire is range-checked after every evaluation, edge and inside a listener (a decision about masking taken for
+    one operand must not be reused for another)."""
+    py4hw = common.quiet_import()
+    rng = random.Random(ctx.seed * 131 + 6)
+    for wr in (1, 4, 7):
+        for ws in ((wr, wr + 8), (wr + 8, wr), (max(1, wr - 1), wr + 5), (wr + 3, wr + 9), (wr, wr)):
+            for first in (0, 1):
+                for kind in ('mux2', 'mux', 'mux2_buf'):
+                    with quiet():
+                        hw = py4hw.HWSystem()
+                        sel = hw.wire('sel', 1); ops = [hw.wire('op%d' % i, w) for i, w in enumerate(ws)]; r = hw.wire('r', wr)
+                        if kind == 'mux': py4hw.Mux(hw, 'dut', sel, ops, r)
+                        elif kind == 'mux2': py4hw.Mux2(hw, 'dut', sel, ops[0], ops[1], r)
+                        else:
+                            m = hw.wire('m', wr); py4hw.Mux2(hw, 'dut', sel, ops[0], ops[1], m); py4hw.Buf(hw, 'b', m, r)
+                        sel.put(first)
+                        for o in ops: o.put((1 << o.getWidth()) - 1)
+                        sim = hw.getSimulator()
+                    seen = []
+                    class L:
+                        def simulatorUpdated(self_): seen.extend(out_of_range(hw))
+                    try: sim.addListener(L())
+                    except Exception: pass
+                    hist = [first] + [rng.randrange(2) for _ in range(3)] + [1 - first, first, 1 - first]
+                    for t, sv in enumerate(hist):
+                        with quiet():
+                            sel.put(sv)
+                            for o in ops: o.put(rng.choice([(1 << o.getWidth()) - 1, (1 << o.getWidth()) - 1, rng.getrandbits(o.getWidth())]))
+                            sim.clk(1) if t % 2 else sim.propagateAll()
+                        bad = out_of_range(hw) or seen
+                        ctx.count(('selector', kind, wr, ws, first, t))
+                        if bad:
+                            ctx.violation({'what': 'wire outside [0, 2**width) after re-evaluating a selector whose operands have different widths',
+                                           'block': kind, 'result_width': wr, 'operand_widths': list(ws), 'select_history': hist[:t + 1],
+                                           'operands': 'all ones / random, re-poked before every evaluation', 'wire': bad[0][0], 'width': bad[0][1], 'value': bad[0][2]})
+                            return False
+    return True
+
+
 def run(ctx):
     ctx.cov['rule'] = ('obligations: theorems of Properties/C06.v over the regenerated Wire.put/prepare; correspondence cases: '
                        '(random design x stimulus step) and (primitive x widths x extreme operand); a case is distinct by its block list + wire widths '
@@ -266,6 +309,8 @@ def run(ctx):
     ok = seq_extremes(ctx) and sweep(ctx, nd, ns, with_model=r['ok'] or not missing)
     if ok and not missing:
         ok = extremes_on_primitives(ctx)
+    if ok:
+        ok = selector_histories(ctx)
     if ok:
         ok = catalogue_sweep(ctx, ctx.tier) and stimulus_sweep(ctx)
     if ok and not tie_ok:
